@@ -6,6 +6,7 @@ from .cfg import CFG
 from . import consts, bls, layout
 from .reject import global_int
 from .cursor import incs_in
+from . import buildmodel as bm
 
 WK = 'embedded_pairing::wkdibe::'
 LQ = 'embedded_pairing::lqibe::'
@@ -49,65 +50,79 @@ def rule_delegation(ctx, cfg, prog):
 
 
 def rule_merge_progress(ctx, cfg, prog):
+    """cursor discipline of adjust_precomputed's sorted merge: equal indices advance both cursors, otherwise exactly the smaller side;
+    each list is drained afterwards.  The outcome of the index comparison on a path is read from ALL the comparisons of the two indices
+    on it (any operator, either operand order, values as the group-domain interpreter sees them, so reference locals are expanded);
+    loops may be `while` or `for`."""
+    from . import grpdom, schemespec
     fs = prog.fn_by_qn(WK + 'adjust_precomputed')
     ctx.require(len(fs) == 1, 'wkdibe::adjust_precomputed not found')
     f = fs[0]
     g = CFG(f)
-    whiles = [(h, lp) for (h, lp) in g.loops if lp.get('k') == 'while']
-    ctx.require(len(whiles) >= 1, 'adjust_precomputed: merge loop not found')
+    loops = [(h, lp) for (h, lp) in g.loops if lp.get('k') in ('while', 'for') and lp.get('c') is not None]
+    ctx.require(len(loops) >= 1, 'adjust_precomputed: merge loop not found')
     # cursors: locals compared with `.length` in the first loop's condition
     curs = {}
-    for x in walk(whiles[0][1]['c']):
+    for x in walk(loops[0][1]['c']):
         if x.get('k') == 'bin' and x.get('op') == '!=':
             l, r = strip(x['lhs']), pr.norm_obj(pr.canon(x['rhs']))
             if l.get('k') == 'ref' and r.endswith('.length'):
                 curs[r[:-len('.length')]] = l['id']
     ctx.require(len(curs) == 2, 'adjust_precomputed: merge cursors not identified')
     names = sorted(curs)
-    head, lp = whiles[0]
+    head, lp = loops[0]
     npaths = 0
+
+    def advances(p):
+        return {n: sum(incs_in(g.nodes[nid].ast, curs[n]) for (nid, lab) in p if g.nodes[nid].kind == 'stmt' and g.nodes[nid].ast) for n in names}
     for p in g.paths(head, {head}, allow_back_edges=0):
         if p[-1][0] != head:
             continue
+        try:
+            seg, conds = grpdom.run_path(prog, f, g, p)
+        except grpdom.Unsupported as e:
+            raise bm.AnalysisBroken('R-CURSOR cannot model a merge path of adjust_precomputed: %s' % e)
+        if seg is None:
+            continue
+        idxs = sorted({o for (k, lab) in conds if k[0] == 'cmp' for o in (k[2], k[3]) if o.endswith('.idx')})
+        fa = [o for o in idxs if o.startswith('from.')]
+        ta = [o for o in idxs if o.startswith('to.')]
+        poss = schemespec.order(conds, fa[0], ta[0]) if (len(fa) == 1 and len(ta) == 1) else {'lt', 'eq', 'gt'}
+        if not poss:
+            continue            # contradictory comparisons: infeasible
         npaths += 1
-        inc = {n: sum(incs_in(g.nodes[nid].ast, curs[n]) for (nid, lab) in p if g.nodes[nid].kind == 'stmt' and g.nodes[nid].ast) for n in names}
-        # classify by the index comparison outcomes on the path
-        eq = lt = None
-        for (nid, lab) in p:
-            nd = g.nodes[nid]
-            if nd.kind == 'cond' and lab is not None:
-                e = strip(nd.ast)
-                if e.get('k') == 'bin' and e.get('op') in ('==', '<') and pr.canon(e['lhs']).endswith('.idx') and pr.canon(e['rhs']).endswith('.idx'):
-                    if e['op'] == '==':
-                        eq = lab
-                    else:
-                        lt = lab
-        kind = 'equal' if eq else ('from<to' if lt else ('from>to' if lt is False else '?'))
+        inc = advances(p)
+        kind = {'eq': 'equal', 'lt': 'from<to', 'gt': 'from>to'}[list(poss)[0]] if len(poss) == 1 else '?'
         tot = sum(inc.values())
         ok = tot >= 1 and all(v <= 1 for v in inc.values())
-        if eq:
+        fn_, tn_ = [n for n in names if 'from' in n], [n for n in names if 'to' in n]
+        if kind == 'equal':
             ok = ok and all(v == 1 for v in inc.values())
-        elif lt is True:
-            ok = ok and inc[[n for n in names if 'from' in n][0]] == 1 and tot == 1 if any('from' in n for n in names) else ok
-        elif lt is False:
-            ok = ok and inc[[n for n in names if 'to' in n][0]] == 1 and tot == 1 if any('to' in n for n in names) else ok
+        elif kind == 'from<to' and fn_:
+            ok = ok and inc[fn_[0]] == 1 and tot == 1
+        elif kind == 'from>to' and tn_:
+            ok = ok and inc[tn_[0]] == 1 and tot == 1
+        else:
+            ok = False
         ctx.ob('R-CURSOR', ok, 'merge|adjust_precomputed|%s' % kind, loc_str(lp),
                'adjust_precomputed: on the merge path [%s] the cursors advance by %s: equal indices must advance both, otherwise exactly the '
                'smaller side (else the loop stalls or skips an attribute)' % (kind, inc), cfg=cfg,
                sample=dict(config=cfg, path=kind, advances=inc))
     ctx.require(npaths >= 3, 'adjust_precomputed: too few merge paths')
     # drains
-    for (h, dl) in whiles[1:]:
+    drained = set()
+    for (h, dl) in loops[1:]:
         c = strip(dl['c'])
         l = strip(c['lhs']) if c.get('k') == 'bin' else {}
         which = [n for n in names if curs[n] == l.get('id')]
         ok = c.get('op') == '!=' and bool(which) and pr.norm_obj(pr.canon(c['rhs'])) == which[0] + '.length' and \
             all(sum(incs_in(g.nodes[nid].ast, l['id']) for (nid, lab) in p if g.nodes[nid].kind == 'stmt' and g.nodes[nid].ast) == 1
                 for p in g.paths(h, {h}, allow_back_edges=0) if p[-1][0] == h)
+        if which:
+            drained.add(which[0])
         ctx.ob('R-CURSOR', ok, 'merge|drain|%s' % (which[0] if which else '?'), loc_str(dl),
                'adjust_precomputed: each drain loop must consume the rest of one list, one entry per iteration', cfg=cfg)
     # both drains present, after the merge loop
-    drained = set(n for (h, dl) in whiles[1:] for n in names if curs[n] == strip(strip(dl['c'])['lhs']).get('id'))
     ctx.ob('R-CURSOR', drained == set(names), 'merge|drain-both', loc_str(f), 'adjust_precomputed must drain both lists after the merge', cfg=cfg)
 
 
